@@ -658,7 +658,8 @@ class LangServer:
         elif line_context == "var_key":
             # Variable definition keywords only (variable definition)
             key_context = 0
-            enc_scope_type = scope_list[-1].get_type()
+            # (a declaration outside any program unit has no enclosing scope)
+            enc_scope_type = scope_list[-1].get_type() if scope_list else None
             if enc_scope_type == MODULE_TYPE_ID:
                 key_context = 1
             elif (enc_scope_type == SUBROUTINE_TYPE_ID) or (
